@@ -125,7 +125,7 @@ def main(check_id, harness_path, tier, seed, meta, t_quick=25, t_thorough=120, k
         conds = [c for c in conds if only(c[0])]
     nproc = int(os.environ.get("VERIF_JOBS", "0")) or min(16, os.cpu_count() or 4)
     with ThreadPoolExecutor(nproc) as ex:
-        results = list(ex.map(lambda c: run_condition(harness_path, c[0], c[1], T), conds))
+        results = list(ex.map(lambda c: run_condition(harness_path, c[0], c[1], T, per_path=max(5, T // 2)), conds))
     known, _ = load_known()
     violations, known_hits, inconclusive = [], [], []
     for r in results:
